@@ -89,6 +89,8 @@ class L(object):
         return 'L(%s)' % self.tag
 class E1(Exception):
     pass
+def DECO(x):
+    return lambda fn: fn
 def F(*a, **k):
     LOG.append(('F', repr(a), repr(sorted(k.items()))))
     return len(a) + len(k)
@@ -101,6 +103,7 @@ class G(object):
     self.rng = random.Random(seed)
     self.t = 0
     self.lazy_ok = lazy_ok
+    self.def_orders = []   # per decorated def: (tags in the decorator expression, tags in the default values)
     self.kinds = []
     self.has_lazy = False
 
@@ -178,7 +181,7 @@ class G(object):
     pad = '    ' * ind
     k = rng.choice(['assign', 'expr', 'augassign', 'return_maybe', 'store_sub', 'store_attr', 'store_deep', 'del_sub',
                     'tuple_assign', 'if', 'for', 'with', 'try', 'raise_maybe', 'print_like', 'if', 'for', 'assign', 'expr'] +
-                   (['while', 'assert'] if self.lazy_ok else []))
+                   (['while', 'assert'] if self.lazy_ok else []) + ['defdeco', 'defdeco'])
     self.kinds.append('s_' + k)
     if d >= 2 and k in ('if', 'for', 'with', 'try', 'while'):
       k = 'assign'
@@ -208,6 +211,23 @@ class G(object):
     if k == 'assert':
       self.has_lazy = True
       return [pad + 'assert a < 100']
+    if k == 'defdeco':
+      # decorator expressions are evaluated before default values, both when the def statement runs; a transformer
+      # may reject compound ones, but if it accepts them the order has to stay
+      self.has_lazy = True
+      self.t += 1
+      nm = 'in_%d' % self.t
+      t0 = self.t
+      deco = e()
+      t1 = self.t
+      d1, d2 = e(), e()
+      t2 = self.t
+      # tags of the T/L calls inside the decorator expression and inside the default values
+      self.def_orders.append((['t%d' % i for i in range(t0 + 1, t1 + 1)], ['t%d' % i for i in range(t1 + 1, t2 + 1)]))
+      return [pad + '@DECO(%s)' % deco,
+              pad + 'def %s(p=%s, *, q=%s):' % (nm, d1, d2),
+              pad + '    return p',
+              pad + 'r = %s()' % nm]
     if k == 'if':
       out = [pad + 'if %s:' % e()]
       out += self.block(ind + 1, d + 1)
@@ -255,7 +275,7 @@ class G(object):
 
 
 def plan(tier, seed):
-  n = 60 if tier == 'quick' else 800
+  n = 300 if tier == 'quick' else 3000
   return [{'seed': seed, 'slice': k, 'n': n, 'hashseed': (seed * 16 + k) % 4294967295} for k in range(16)]
 
 
@@ -282,6 +302,15 @@ def random_config(rng):
       (anf.ASTEdgePattern(anf.ANY, anf.ANY, ast.Attribute), lambda p, f, c: isinstance(c.value, ast.Call)),
       (anf.ASTEdgePattern(anf.ANY, anf.ANY, ast.expr), anf.REPLACE),
       (anf.ANY, anf.LEAVE),
+      # field names that contain, or are contained in, other field names
+      (anf.ASTEdgePattern(anf.ANY, 'values', anf.ANY), anf.LEAVE),
+      (anf.ASTEdgePattern(anf.ANY, 'value', anf.ANY), anf.REPLACE),
+      (anf.ASTEdgePattern(anf.ANY, 'elts', anf.ANY), anf.LEAVE),
+      (anf.ASTEdgePattern(anf.ANY, 'args', ast.expr), anf.LEAVE),
+      (anf.ASTEdgePattern(anf.ANY, 'targets', anf.ANY), anf.LEAVE),
+      (anf.ASTEdgePattern(anf.ANY, 'keywords', anf.ANY), anf.LEAVE),
+      (anf.ASTEdgePattern(ast.Compare, 'comparators', anf.ANY), anf.REPLACE),
+      (anf.ASTEdgePattern(anf.ANY, 'slice', anf.ANY), anf.REPLACE),
   ]
   for _ in range(rng.randint(1, 4)):
     pats.append(rng.choice(choices))
@@ -294,9 +323,20 @@ def should_transform(config, parent, field, child):
     config = [(anf.ASTEdgePattern(anf.ANY, anf.ANY, (ast.Constant, ast.Name)), anf.LEAVE),
               (anf.ASTEdgePattern(anf.ANY, anf.ANY, ast.expr), anf.REPLACE)]
   for pat, res in config:
-    if pat is anf.ANY or pat.matches(parent, field, child):
+    if pat is anf.ANY or pattern_matches(pat, parent, field, child):
       return res(parent, field, child)
   return False
+
+
+def pattern_matches(pat, parent, field, child):
+  """The documented meaning of an edge pattern, written independently of ASTEdgePattern.matches: parent and child by
+  isinstance, the field by string equality, anf.ANY matches anything."""
+  from malt.pyct.common_transformers import anf
+  if pat.parent is not anf.ANY and not isinstance(parent, pat.parent):
+    return False
+  if pat.field is not anf.ANY and not (isinstance(field, str) and field == pat.field):
+    return False
+  return pat.child is anf.ANY or isinstance(child, pat.child)
 
 
 def anf_shape_problems(tree, config):
@@ -331,6 +371,10 @@ def anf_shape_problems(tree, config):
     if isinstance(getattr(child, 'ctx', None), (ast.Store, ast.Del)):
       return
     if isinstance(child, ast.Name):
+      return
+    if isinstance(parent, (ast.FunctionDef, ast.arguments, ast.arg)):
+      # decorators, default values and annotations of a nested def are not among the operand positions the
+      # property lists; only the evaluation order is judged for them
       return
     if should_transform(config, parent, field, child):
       probs.append('%s.%s holds %s although the configuration asks for it to be named' % (
@@ -456,6 +500,18 @@ def judge(cid, seed, fixed_body=None):
             args, 'reordered (same events, different order)' if same_events else 'differ', n, lo[n:n + 3], lt[n:n + 3]))
         if same_events:
           reorder_only.append(1)
+          # decorator expressions run before default values: a reordering across that boundary is not the recorded
+          # hoisting-order mechanism (which the unchanged transformer never exhibits there: it rejects such defs)
+          for deco_tags, default_tags in getattr(g, 'def_orders', []):
+            pos = {}
+            for idx, ev in enumerate(lt):
+              for tg in deco_tags + default_tags:
+                if repr(tg) in repr(ev) and tg not in pos:
+                  pos[tg] = idx
+            dd = [pos[t_] for t_ in deco_tags if t_ in pos]
+            ff = [pos[t_] for t_ in default_tags if t_ in pos]
+            if dd and ff and max(dd) > min(ff):
+              probs.append('a default value of a decorated def was evaluated before its decorator expression')
         break
     reparsed = ast.parse(text)
     sp, temps = anf_shape_problems(reparsed, config)
